@@ -3,6 +3,8 @@
 mod board_checks;
 mod c04;
 mod common;
+mod engine_checks;
+mod engine_driver;
 mod families;
 mod input_checks;
 mod pgn_checks;
@@ -49,6 +51,12 @@ fn main() {
         "C13" => input_checks::run_c13(tier),
         "C14" => input_checks::run_c14(tier),
         "C15" => uci_checks::run(tier),
+        #[cfg(inkayaku_verif)]
+        "C08" => engine_checks::run_c08(tier),
+        #[cfg(inkayaku_verif)]
+        "C10" => engine_checks::run_c10(tier),
+        #[cfg(inkayaku_verif)]
+        "C11" => engine_checks::run_c11(tier),
         "C17" => pgn_checks::run(tier),
         "C18" => table_check::run(tier),
         _ => {
@@ -80,6 +88,8 @@ fn replay(id: &str, path: &str) -> i32 {
         "C13" => return input_checks::replay_c13(case),
         "C14" => return input_checks::replay_c14(case),
         "C15" => return uci_checks::replay(case),
+        #[cfg(inkayaku_verif)]
+        "C08" | "C10" | "C11" => return engine_checks::replay(id, case),
         "C17" => return pgn_checks::replay(case),
         "C18" => return table_check::replay_case(case),
         "C12" => {
